@@ -24,23 +24,23 @@ Proof.
 Qed.
 
 Theorem uid_store_meaning e s silent mb q item new it :
-  uniq_keys (links s) -> item_of item = Some it ->
+  uniq_keys (links s) -> item_of item = Some it -> flags_valid new = true ->
   classify e s (OUidStore false silent mb q item new) = None ->
   let s' := step e s (OUidStore false silent mb q item new) in
   Forall2 (row_ok mb (expand_uid (links s) mb q) it new) (links s) (links s')
   /\ nexts s' = nexts s /\ next_msg s' = next_msg s.
 Proof.
-  intros Hu Hi Hc. rewrite (step_exact e s _ Hu Hc). simpl. split; [|auto]. now apply spec_update_meaning.
+  intros Hu Hi Hv Hc. rewrite (step_exact e s _ Hu Hc). simpl. rewrite Hv. simpl. split; [|auto]. now apply spec_update_meaning.
 Qed.
 
 Theorem seq_store_meaning e s silent mb q item new it :
-  uniq_keys (links s) -> item_of item = Some it ->
+  uniq_keys (links s) -> item_of item = Some it -> flags_valid new = true ->
   classify e s (OStore false silent mb q item new) = None ->
   let s' := step e s (OStore false silent mb q item new) in
   Forall2 (row_ok mb (seq_targets (links s) mb q) it new) (links s) (links s')
   /\ nexts s' = nexts s /\ next_msg s' = next_msg s.
 Proof.
-  intros Hu Hi Hc. rewrite (step_exact e s _ Hu Hc). simpl. split; [|auto]. now apply spec_update_meaning.
+  intros Hu Hi Hv Hc. rewrite (step_exact e s _ Hu Hc). simpl. rewrite Hv. simpl. split; [|auto]. now apply spec_update_meaning.
 Qed.
 
 (** the sequence set denotes rows of the selected mailbox: every target is the
@@ -65,7 +65,7 @@ Proof.
   assert (K : forall T, In l (spec_update (links s) mb T item new)).
   { intros T. rewrite spec_update_upd. apply in_map_iff. exists l. split; [|assumption].
     unfold upd, in_mbox. apply Z.eqb_neq in Hmb. now rewrite Hmb. }
-  destruct Ho as [->| ->]; simpl; apply K.
+  destruct Ho as [->| ->]; simpl; destruct (negb (flags_valid new)); simpl; try assumption; apply K.
 Qed.
 
 (** flags a copy starts with: the original's, plus \Recent unless it is there
